@@ -144,7 +144,7 @@ def job_loop(family, shape, gemini, batch_size, solver="adam", mlcl=False, timeo
         return env
 
     ex = Explorer(max_paths=max_paths)
-    tagbase = f"loop/{family}/{cm.shape_str(shape)}/{gemini}/bs{batch_size}/{solver}{'/mlcl' if mlcl else ''}"
+    tagbase = f"loop/{family}/{cm.shape_str(shape)}/{gemini}/bs{batch_size}/{solver}{'/mlcl' + (str(mlcl) if isinstance(mlcl, dict) else '') if mlcl else ''}"
     for out, pc, trace in ex.run(body, setup):
         res["paths"] += 1
         tag = f"{tagbase}/path{res['paths']}"
@@ -218,7 +218,7 @@ def jobs(tier):
         "SparseLinearModel": [(2, 2, 2)],
         "SparseMLPModel": [(2, 1, 1, 2), (1, 2, 2, 2)] + ([] if q else [(2, 2, 1, 2)]),
         "CategoricalModel": [(2, 2), (2, 3)] + ([] if q else [(3, 3)]),               # (n, K)
-        "Douglas": [(1, 2, 1, 2), (2, 1, 2, 2)] + ([] if q else [(2, 2, 1, 2), (1, 1, 3, 2)]),     # (n, d, cuts, K)
+        "Douglas": [(1, 2, 1, 2), (2, 1, 2, 2), (1, 1, 3, 2)] + ([] if q else [(2, 2, 1, 2), (1, 2, 3, 2)]),     # (n, d, cuts, K): 3 cuts = the first non-involutive orderings
     }
     for fam, shapes in L1.items():
         for sh in shapes:
@@ -245,6 +245,11 @@ def jobs(tier):
     # must-link / cannot-link decoration (the extra pairwise terms)
     out.append({"name": "loop/LinearModel/mlcl", "target": "checks.c03:job_loop",
                 "kwargs": dict(family="LinearModel", shape=(3, 1, 2), gemini="mi", batch_size=None, mlcl=True), "timeout": 300 if q else 2400})
+    # one sample in the same slot of two pairs of one kind: the extra terms must accumulate
+    out.append({"name": "loop/LinearModel/mlcl/shared-sample", "target": "checks.c03:job_loop",
+                "kwargs": dict(family="LinearModel", shape=(3, 1, 2), gemini="mi", batch_size=None, mlcl={"ml": [(0, 1), (0, 2)], "cl": []}), "timeout": 300 if q else 2400})
+    out.append({"name": "loop/CategoricalModel/mlcl/shared-sample", "target": "checks.c03:job_loop",
+                "kwargs": dict(family="CategoricalModel", shape=(3, 2), gemini="mi", batch_size=None, mlcl={"ml": [], "cl": [(2, 1), (0, 1)]}), "timeout": 300 if q else 2400})
     if not q:
         out.append({"name": "loop/LinearModel/mlcl/bs2", "target": "checks.c03:job_loop",
                     "kwargs": dict(family="LinearModel", shape=(3, 1, 2), gemini="mi", batch_size=2, mlcl=True), "timeout": 2400})
